@@ -68,6 +68,12 @@ def instantiate(cx):
         head = 'class K:\n    def m(self):\n        self.alpha = 1\n        self._9ab = 1\n        self.\u00e4\u00dfpha = 1\n'
         left = '        self.' + run
         line = left + ('ha' if fol == 'ident' else 'x' if not run else '') + ' = 2'
+    elif ctx == 'pkgattr':
+        if pre != 'dot' or fol not in ('eol', 'ident') or abc != 'ascii':
+            return None
+        head = 'import xml.etree.ElementTree\nimport email.mime.text\n'
+        left = 'zz = ' + ('xml.' + {'': '', 'a': 'e', 'al': 'et', 'alp': 'etr'}[run] if cx['run'] % 2 == 0 else 'email.' + {'a': 'm', 'alp': 'mim'}[run])
+        line = left + ('ee' if fol == 'ident' else '')
     elif ctx == 'import':
         if pre not in ('space', 'dot', 'comma') or fol not in ('eol', 'ident'):
             return None
@@ -167,7 +173,7 @@ def main():
         if inst is None:
             continue
         src, pos = inst
-        kind = {'import': 'import', 'fromimport': 'import', 'attrstore': 'attrstore', 'string': 'other', 'comment': 'other'}.get(cx['ctx'], 'name')
+        kind = {'import': 'import', 'fromimport': 'import', 'attrstore': 'attrstore', 'string': 'other', 'comment': 'other', 'pkgattr': 'attr'}.get(cx['ctx'], 'name')
         if cx['pre'] == 'dot' and cx['ctx'] == 'code':
             kind = 'attr'
         if kind == 'name' and cx['run'] == 0:
